@@ -44,6 +44,14 @@ CLAIMED = {
          "Trusted: as C04. Outside: what survives on disk, the temp-directory walks themselves (clean*Temp internals), event time-lines, the "
          "pipestance-level merge.",
          "DESIGN.md §4 C14"),
+ "C05": ("Partial (restart decision kernel): crash points are symbolic sentinel-file sets closed under the order a job writes its files. "
+         "The real checkedReset/restartLocal/restartQueuedLocal/uncheckedReset/removeAll run on them (process liveness, recorded pid and "
+         "_jobinfo readability arbitrary): a job with recorded completion is never reset, exactly failed / queued / dead-process jobs are, and "
+         "nothing of the old attempt stays cached; two scheduler steps with a restart in between never resubmit a job with recorded progress; "
+         "Lock refuses an existing _lock without side effects and a handled signal removes it.",
+         "Trusted: go/ssa, symgo, z3, the OS-boundary stubs listed in the evidence, the crash-consistency assumption. Outside: equality of final "
+         "outputs with an uninterrupted run, RestoreForks end to end, VDR/post-processing interruption, the real signal machinery, SIGKILL windows.",
+         "DESIGN.md §4 C05"),
  "C06": ("Partial (scheduler decision kernel): faults are symbolic sentinel files and stub verdicts — _errors/_assert in any combination, "
          "unreadable or invalid outputs, unparseable _stage_defs. Asserted: failure precedence, a failed job fails its fork and node, a failed "
          "node stays on the frontier and the pipestance state is failed never complete, consumers wait and submit nothing, independent stages "
